@@ -454,8 +454,21 @@ func buildAssignments(files []parsedFile, cfg *Config, preserved *preservationSe
 	minToOrig := make(map[string]string, len(records))
 	origToMin := make(map[string][]string)
 
-	for i, record := range records {
-		newName := fmt.Sprintf("x%d", i+1)
+	// A generated name must not be one the session already spells: names that
+	// are kept (parameters under PreserveParams, top-level set variables,
+	// exports, exclusions, builtins, quoted data) would otherwise be captured
+	// by, or collide with, a renamed symbol.
+	taken := sessionSymbolNames(files)
+	next := 0
+	for _, record := range records {
+		var newName string
+		for {
+			next++
+			newName = fmt.Sprintf("x%d", next)
+			if !taken[newName] {
+				break
+			}
+		}
 		assignments[record.sym] = newName
 		assignmentKeys[symbolLookupKey(record.sym)] = newName
 
@@ -483,6 +496,34 @@ func buildAssignments(files []parsedFile, cfg *Config, preserved *preservationSe
 		MinifiedToOriginal: minToOrig,
 		OriginalToMinified: origToMin,
 	}
+}
+
+// sessionSymbolNames returns every symbol spelling that occurs anywhere in the
+// session's files, quoted data included, with package-qualified symbols
+// contributing their name part as well.
+func sessionSymbolNames(files []parsedFile) map[string]bool {
+	names := make(map[string]bool)
+	var walk func(v *lisp.LVal)
+	walk = func(v *lisp.LVal) {
+		if v == nil {
+			return
+		}
+		if v.Type == lisp.LSymbol {
+			names[v.Str] = true
+			if _, name, ok := splitQualifiedSymbol(v.Str); ok {
+				names[name] = true
+			}
+		}
+		for _, c := range v.Cells {
+			walk(c)
+		}
+	}
+	for i := range files {
+		for _, expr := range files[i].exprs {
+			walk(expr)
+		}
+	}
+	return names
 }
 
 func applyAssignments(file *parsedFile, assignments map[*analysis.Symbol]string, assignmentKeys map[string]string, cfg *Config) {
